@@ -7,6 +7,7 @@
 package e2e
 
 import (
+	"sync"
 	"context"
 	"fmt"
 	"math/rand"
@@ -438,6 +439,7 @@ func TestScenarios(t *testing.T) {
 			lg := &inst.Log{}
 			var killed atomic.Bool
 			var reloading atomic.Bool
+			var ticks sync.Map // aggregation group id -> the timer instant its current flush uses as "now"
 			hook := func(name string, args ...any) {
 				if name == "group.loaded" && reloading.Load() {
 					// the new dispatcher is routing the provider's alerts it found at start-up:
@@ -446,6 +448,8 @@ func TestScenarios(t *testing.T) {
 					time.Sleep(700 * time.Millisecond)
 				}
 				switch name {
+				case "flush.tick":
+					ticks.Store(agOf(args[2]), ms(args[1].(time.Time)))
 				case "flush.begin":
 					if killed.Load() {
 						runtime.Goexit() // a group that survived the shutdown of its dispatcher: end it
@@ -459,7 +463,7 @@ func TestScenarios(t *testing.T) {
 						}
 						obs = append(obs, inst.AlertObs{L: canonLabels(lsMap(a)), Status: st, Start: ms(a.StartsAt), End: ms(a.EndsAt), Upd: ms(a.UpdatedAt)})
 					}
-					lg.Add(inst.Event{Ev: "flush.begin", Gk: args[0].(string), Ag: agOf(args[3]), Route: args[1].(string), Alerts: obs})
+					lg.Add(inst.Event{Ev: "flush.begin", Gk: args[0].(string), Ag: agOf(args[3]), Route: args[1].(string), Alerts: obs, TickNow: tickOf(&ticks, agOf(args[3]))})
 				case "flush.ok", "flush.done":
 					lg.Add(inst.Event{Ev: name, Gk: args[0].(string), Ag: agOf(args[1])})
 				case "worker.recv":
@@ -588,6 +592,14 @@ func nonNil(x []tiv) []tiv {
 	return x
 }
 
+// tickOf is the timer instant recorded for the group's current flush (-1: unknown).
+func tickOf(m *sync.Map, ag string) int64 {
+	if v, ok := m.Load(ag); ok {
+		return v.(int64)
+	}
+	return -1
+}
+
 func agOf(x any) string {
 	id, _ := notify.AggrGroupID(x.(context.Context))
 	return id
@@ -692,6 +704,6 @@ func norm(e inst.Event, run int) map[string]any {
 	}
 	return map[string]any{
 		"run": run, "seq": e.Seq, "t": e.T, "ev": e.Ev, "gk": e.Gk, "ag": e.Ag, "integ": e.Integ, "alerts": e.Alerts,
-		"outcome": e.Outcome, "deadline": e.Deadline, "st": e.Start, "firing": e.Firing, "resolved": e.Resolved, "data": e.Data,
+		"outcome": e.Outcome, "deadline": e.Deadline, "st": e.Start, "tick": e.TickNow, "firing": e.Firing, "resolved": e.Resolved, "data": e.Data,
 	}
 }
